@@ -83,7 +83,7 @@ CHECKS = {
         text="Rocq theorems about the buffer model (coq/Buffers.v): C11_other_buffers_untouched (for EVERY operation - create, scan_*, "
              "switch, push, pop, flush, delete, any number of yylex calls - a buffer that is neither named nor being scanned keeps its "
              "unread input, BOL status and line number), C11_switch_and_back_resumes, C11_scan_gives_exactly_the_bytes, "
-             "C11_push_pop_returns, C11_flush_keeps_unread_file_text. Histories of 10-60 operations (to stack depth > 9) are replayed "
+             "C11_push_pop_returns, C11_flush_keeps_unread_file_text, C11_pop_in_yywrap_leaves_others / C11_pop_in_yywrap_resumes (yypop_buffer_state() from yywrap()). Histories of 10-60 operations (to stack depth > 9) are replayed "
              "against non-reentrant, reentrant (per-buffer yylineno) and c99 scanners and compared token by token (labelled with the "
              "buffer) with the extracted model; yy_scan_buffer is probed with unterminated buffers.",
         design="DESIGN.md section 6 C11", technique="machine-checked proof (Rocq) of buffer independence + differential histories"),
